@@ -40,7 +40,7 @@ TRACK = ["skfem.element.element_h1:ElementH1.gbasis", "skfem.element.element_hdi
          "skfem.element.element_quad.element_quadp:ElementQuadP.lbasis"]
 REQUIRED_MONITORS = ["ref-derivative", "mapped-grad", "mapped-div", "mapped-curl", "mapped-hess", "nodal-delta",
                      "partition-of-unity", "hdiv-flux-dual", "hcurl-circulation-dual", "global-dofs-dual",
-                     "layouts-agree", "history-independent", "same-object-quotient"]
+                     "layouts-agree", "history-independent", "same-object-quotient", "point-dtype-independent"]
 REQUIRED_REACH = ["complex-step", "central-difference", "negative-det-cell", "per-cell-layout", "subset-tind",
                   "non-affine-cell", "higher-derivative-chain", "unsorted-triangle-cells",
                   "global-nodal-on-general-quadrilateral", "points-updated-in-place",
@@ -48,7 +48,9 @@ REQUIRED_REACH = ["complex-step", "central-difference", "negative-det-cell", "pe
                   "nearby-query:lbasis", "nearby-query:gbasis", "nearby-query:relative-1e-6", "nearby-query:relative-1e-9",
                   "nearby-query:one-ulp", "nearby-query:single-entry-one-ulp", "nearby-query:absolute-1e-9",
                   "nearby-query:single-point-moved", "nearby-query:back-to-first", "nearby-query:per-cell-layout",
-                  "same-object-quotient:lbasis", "same-object-quotient:gbasis"]
+                  "same-object-quotient:lbasis", "same-object-quotient:gbasis", "point-spelling:int64", "point-spelling:int32",
+                  "point-spelling:float32", "point-spelling:fortran-order", "point-spelling:strided-view", "point-spelling:read-only",
+                  "point-spelling:lbasis", "point-spelling:gbasis"]
 
 FD = ((1, 4 / 5), (2, -1 / 5), (3, 4 / 105), (4, -1 / 280))
 
@@ -309,11 +311,6 @@ def mapped_derivatives(ctx, k):
     cells = np.arange(nt) if use_tind is None else tind
     npts = int(rng.choice([4, 4, 1, len(cells)]))
     percell = bool(rng.random() < 0.5)
-    if rec.name == "ElementTriN3" and percell:
-        # ElementTriN3.gbasis implements the shared-point layout only (raises for per-cell points); the layout
-        # is workload diversity here, not part of C09's statement
-        ctx.drop("per-cell-layout-unsupported:ElementTriN3")
-        percell = False
     if percell:
         X = np.stack([GEO.random_ref_points(rng, kind, npts) for _ in cells], axis=1)  # (d, ncells, npts)
         ctx.reached("per-cell-layout")
@@ -457,7 +454,7 @@ def mapped_derivatives(ctx, k):
                           mech=f"mapped-grad:{rec.name.split('(')[0]}", elem=rec.name, i=i, comp=comp, geom=geom, full_pass=True)
         ctx.reached("every-local-function-of-large-elements")
     # the two point layouts give the same fields
-    if not percell and len(idxs) and rec.name != "ElementTriN3":
+    if not percell and len(idxs):
         i = idxs[int(rng.integers(len(idxs)))]
         Xb = np.broadcast_to(X[:, None, :], (d, len(cells), npts)).copy()
         fa, fb = gb(X, i), rec.make().gbasis(mesh.mapping(), Xb, i, use_tind)
@@ -831,7 +828,7 @@ def nearby_queries(ctx, k):
     mesh = mc.mesh
     nt = mesh.t.shape[1]
     cells = np.sort(rng.choice(nt, size=min(nt, 2), replace=False)).astype(np.int64)
-    percell = bool(rng.random() < 0.4) and rec.name != "ElementTriN3"
+    percell = bool(rng.random() < 0.4)
     if percell:
         lift = lambda Y: np.stack([Y[:, np.roll(np.arange(npts), c_)] for c_ in range(len(cells))], axis=1)
         ctx.reached("nearby-query:per-cell-layout")
@@ -984,6 +981,76 @@ def _n_ref(ctx):
     return 2 * (len([r for r in EL.registry() if r.family in ("h1", "hdiv", "hcurl") and not r.skeleton]) + len(high_degree_records()))
 
 
+def point_spellings(ctx, k):
+    """"At every point": the points are numbers, however the caller's array stores them.  Reference vertices and the
+    lattice {0, 1/2, 1}^d given as int64 / int32 / float32 arrays, in Fortran order, as a strided view and read-only
+    must give the fields delivered for the same points as a float64 C array (second execution that must agree; a fresh
+    element object each time).  Integer and float32 lattice points are exact doubles, so nothing but the dtype differs."""
+    recs = nearby_records()
+    rec = recs[k % len(recs)]
+    rng = ctx.rng()
+    kind = rec.kind
+    d = GEO.REFDIM[kind]
+    base = rec.name.split("(")[0] if rec.name.startswith(("ElementLinePp(", "ElementQuadP(")) else rec.name
+    V = np.asarray(GEO.ref_vertices(kind), dtype=float)                      # (d, nv), entries 0/1
+    half = np.clip(V * 0.5 + 0.25 * (V.sum(axis=0, keepdims=True) == 0), 0, 1)  # 0, 1/2 and one 1/4 point: exact in float32
+    pad = np.zeros((d, 2 * V.shape[1]))
+    pad[:, ::2] = V
+    variants = [("int64", V.astype(np.int64), V, 1e-13), ("int32", V.astype(np.int32), V, 1e-13),
+                ("float32", half.astype(np.float32), half, 1e-5),
+                ("fortran-order", np.asfortranarray(half), half, 1e-13), ("strided-view", pad[:, ::2], V, 1e-13)]
+    ro = half.copy()
+    ro.setflags(write=False)
+    variants.append(("read-only", ro, half, 1e-13))
+    has_l = rec.family in ("h1", "hdiv", "hcurl", "matrix")
+    N = nbfun(rec.make())
+    idx = _pick_indices(rng, N, ctx.scale(4, 10))
+    mc = None
+    if not has_l or k % 2 == 0:
+        comp_global = rec.family == "global"
+        mc = wellshaped(rng, kind, rec.mesh_req == "axis-parallel") if (comp_global or rec.mesh_req != "any") else G.first_order(rng, kind)
+        cells = rng.permutation(mc.mesh.t.shape[1])[:3]
+
+    def call(level, X, i):
+        e = rec.make()
+        if level == "lbasis":
+            return e.lbasis(X, i)
+        from skfem.mapping import MappingAffine, MappingIsoparametric
+        mesh = mc.mesh
+        mp = mesh.mapping()
+        return e.gbasis(mp, X, i, tind=cells)
+
+    for level in (["lbasis"] if has_l else []) + (["gbasis"] if mc is not None else []):
+        for tag, Xv, Xf, rtol in variants:
+            for i in idx:
+                want = call(level, np.ascontiguousarray(Xf, dtype=np.float64), i)
+                try:
+                    got = call(level, Xv, i)
+                except Exception as ex:  # noqa: BLE001   (refusing a dtype is not a wrong value)
+                    ctx.tolerated("point-dtype-independent")
+                    ctx.drop(f"point-spelling-refused:{tag}:{type(ex).__name__}")
+                    break
+                ok, bad = len(got) == len(want), None
+                for g, w in zip(got, want) if ok else ():
+                    fg, fw = _fields_of(g), _fields_of(w)
+                    if set(fg) != set(fw):
+                        ok, bad = False, ("fields", sorted(fg), sorted(fw))
+                        break
+                    for name in fw:
+                        a, b = np.asarray(fg[name], dtype=float), np.asarray(fw[name], dtype=float)
+                        sc = max(1.0, float(np.abs(b).max()) if b.size else 1.0)
+                        if a.shape != b.shape or not np.allclose(a, b, rtol=0, atol=rtol * sc, equal_nan=True):
+                            ok, bad = False, (name, float(np.abs(a - b).max()) if a.shape == b.shape else "shape")
+                            break
+                    if not ok:
+                        break
+                ctx.check("point-dtype-independent", ok, mech=f"fields-depend-on-how-the-points-are-stored:{tag}:{base}", elem=rec.name,
+                          level=level, function=int(i), first_bad=bad)
+            ctx.reached("point-spelling:" + tag)
+        ctx.reached("point-spelling:" + level)
+    ctx.nontrivial("point-spellings", rec.name)
+
+
 def _n_nodal(ctx):
     return len([r for r in EL.registry() if r.family in ("h1",) and not r.skeleton])
 
@@ -1000,4 +1067,5 @@ FAMILIES = [
     Family("duality", duality, 42, 840),
     Family("global-dofs", global_dofs, 22, 330),
     Family("nearby-queries", nearby_queries, _n_nearby, _n_nearby, budget={"quick": 40, "thorough": 300}),
+    Family("point-spellings", point_spellings, _n_nearby, lambda c: 2 * _n_nearby(c), budget={"quick": 40, "thorough": 300}),
 ]
